@@ -1335,7 +1335,7 @@ func TestVerifAPI(t *testing.T) {
 			"api/client.go (Client.Chat / Client.Generate stream decoding over an in-process RoundTripper)", "template, gin router and middlewares, real model store on tmpfs populated through POST /api/blobs + /api/create"},
 		Stub: []string{"llm.LlamaServer (simLlama: scripted Completion delivering the drawn model output in tape-chosen UTF-8-aligned fragments with latency and failure points)",
 			"GPU discovery (simInventory)", "TCP/HTTP transport (requests enter at router.ServeHTTP; responses are recorded in memory)", "registry network (unreachable)"},
-		Rule: map[string]string{"C02": "HTTP-level stage: the same simulated server lifetimes as the C01 stage (3-10 concurrent clients, tape-drawn request mix through the real router, nobody cancels, no unlimited keep-alive); a run that ends with clients waiting while nothing is runnable and no timer is pending has lost a reply; after the last response and six more simulated minutes every started runner must have been closed and GET /api/ps must be empty", "C01": "HTTP-level stage: one evaluation = one simulated server lifetime in which 3-10 concurrent clients issue a tape-drawn mix of generate, chat, embed, ps, tags, show, create, copy, delete, blob upload, pull and unload (keep_alive 0) requests through the real router; the simulated runner reports a violation when Close starts while a Completion of a request whose context is still live is running on it, or when it is closed twice",
+		Rule: map[string]string{"C02": "HTTP-level stage: the same simulated server lifetimes as the C01 stage (3-10 concurrent clients, tape-drawn request mix through the real router, one request in five is abandoned by its client after 0-3 s, no unlimited keep-alive); a run that ends with clients waiting for requests nobody cancelled while nothing is runnable and no timer is pending has lost a reply; after the last response and fifteen more simulated minutes every started runner must have been closed and GET /api/ps must be empty", "C01": "HTTP-level stage: one evaluation = one simulated server lifetime in which 3-10 concurrent clients issue a tape-drawn mix of generate, chat, embed, ps, tags, show, create, copy, delete, blob upload, pull and unload (keep_alive 0) requests through the real router; the simulated runner reports a violation when Close starts while a Completion of a request whose context is still live is running on it, or when it is closed twice",
 			"*": "one evaluation = one simulated server lifetime: models created through the API, then 1-4 cases run concurrently; a case = (request shape, model output, runner failure point) issued 2-7 times over native stream / native non-stream (raw and through api.Client), /v1 stream and /v1 non-stream, each call with its own tape-drawn fragmentation, all results compared pairwise; non-trivial = at least one case completed with >= 2 calls that reached the runner; distinct = different hash of the whole (task, label, simulated time) decision sequence"},
 		NonTrivial: func(prop string, r *verifsim.Result) bool { return r.MaxRunnable >= 2 && r.Info["calls"] >= 2 },
 		Assumptions: []string{"instrumentation (yields at synchronisation points, mutex type swap, select/map-range determinisation) preserves single-threaded semantics",
